@@ -1,6 +1,6 @@
 CHECK = dict(
     engine="loop", design_ref="4 / the connection and event-loop model (C04)",
-    text="""Coq theorems lifecycle_ok / count_ok over every input stream (every close cause, closes inside callbacks, async requests at any point, faults, shutdown) + stale-request lemmas; plus replay of real engine traces and the per-connection automaton oracle.""",
+    text="""Coq theorems lifecycle_ok / count_ok over every input stream (every close cause, closes inside callbacks, async requests at any point, faults, shutdown) + stale-request lemmas; conn.processIO regenerated from the source and proved equal to the model's dispatch (genloop); plus replay of real engine traces and the per-connection automaton oracle.""",
     note="Proof is about the hand-written model coq/Model/Loop.v (kernel, handler and other goroutines are universally quantified inputs); "
          "the tie to /repo is the per-run trace correspondence through the vunix shim. Kernel stream semantics assumed (monitors in the model state the contract). Runs cover the default, gc_opt and poll_opt builds, server and client side, 1-4 loops (loop 0 modelled, the others judged by the direct oracles).",
     technique="Coq invariant proofs over a big-step interpreter of the event loop + executable trace checkers + differential replay of real engine runs",
